@@ -255,6 +255,7 @@ pub fn serve() {
 			Some("detect") => run_detect(&req),
 			#[cfg(feature = "hooks")]
 			Some("trials") => run_trials(&req),
+			Some("stream") => crate::stream::run_stream(&req),
 			_ => run_session(&req),
 		};
 		writeln!(out, "{resp}").unwrap();
